@@ -94,7 +94,7 @@ def _work(job):
         else:
             r = engine.decide(harness, timeout=opts["timeout"], per_path=opts["per_path"])
             if r["status"] == "UNKNOWN" and not opts.get("witness"):
-                r2 = engine.decide(harness, timeout=4 * opts["timeout"], per_path=2 * opts["per_path"])
+                r2 = engine.decide(harness, timeout=2 * opts["timeout"], per_path=2 * opts["per_path"])
                 r2["retried"] = True
                 r2["paths"] += r["paths"]
                 r2["solver_checks"] += r["solver_checks"]
